@@ -2413,6 +2413,7 @@ func (s *swamp) Destroy() {
 	// stops all goroutines inside the swamp
 	verifhook.Point("swamp.cancelling", verifhook.ID(s))
 	s.goRoutineCancelFunction()
+	verifhook.Point("swamp.destroy.cancelled", verifhook.ID(s))
 
 	// destroy the chroniclerInterface
 	if atomic.LoadInt32(&s.inMemorySwamp) == 0 {
@@ -2893,6 +2894,7 @@ func (s *swamp) fileWriterHandler(isCloseWrite bool) {
 		return
 	}
 
+	verifhook.Point("swamp.flush.begin", verifhook.ID(s))
 	var treasuresToWrite []treasure.Treasure
 	s.treasuresWaitingForWriter.Iterate(func(t treasure.Treasure) bool {
 
@@ -2910,6 +2912,7 @@ func (s *swamp) fileWriterHandler(isCloseWrite bool) {
 	// A Write funkció megvárja ameddig az előző write befejezi a munkáját, így nem kell
 	// külön szinkronizálni a két írási folyamatot
 	s.chroniclerInterface.Write(treasuresToWrite)
+	verifhook.Point("swamp.flush.wrote", verifhook.ID(s))
 
 	// Durability barrier. Write() only moves entries into the V2 writer's
 	// in-memory block buffer; for swamps whose dirty footprint is below the
